@@ -121,4 +121,126 @@ Section Capstone.
   Qed.
 End Capstone.
 
-Print Assumptions model_proper_both.
+
+(* ====================================================================== *)
+(* grouped statements for Properties/C12.v (one Print Assumptions per group) *)
+(* ====================================================================== *)
+Local Open Scope R_scope.
+
+(* the Epanechnikov kernel over the reals: K' = k everywhere, total mass 1 *)
+Lemma R_epanechnikov_kernel : forall h : R, 0 < h ->
+  (forall x : R, is_derive (RealSpec.KdeR.epan_cdf h) x (RealSpec.KdeR.epan_pdf h x)) /\
+  (forall x : R, 0 <= RealSpec.KdeR.epan_pdf h x) /\
+  (forall a b : R, a <= b -> RealSpec.KdeR.epan_cdf h a <= RealSpec.KdeR.epan_cdf h b) /\
+  RInt (RealSpec.KdeR.epan_pdf h) (- h) h = 1.
+Proof.
+  intros h Hh.
+  split; [apply Proofs.KdeR.epan_cdf_derive, Hh|].
+  split; [apply Proofs.KdeR.epan_pdf_nonneg, Hh|].
+  split; [apply Proofs.KdeR.epan_cdf_monotone, Hh | apply Proofs.KdeR.epan_mass_one, Hh].
+Qed.
+
+(* ANY kernel pair K' = k >= 0 (continuous), any weighted sample with positive weights *)
+Lemma R_kernel_average : forall k K : R -> R, (forall x : R, is_derive K x (k x)) ->
+  (forall x : R, 0 <= k x) -> (forall x : R, continuous k x) ->
+  forall d : RealSpec.KdeR.sample, RealSpec.KdeR.sample_ok d ->
+  (forall x : R, is_derive (RealSpec.KdeR.kde_mix K d) x (RealSpec.KdeR.kde_mix k d x)) /\
+  (forall x : R, 0 <= RealSpec.KdeR.kde_mix k d x) /\
+  (forall a b : R, a <= b -> RealSpec.KdeR.kde_mix K d a <= RealSpec.KdeR.kde_mix K d b) /\
+  (forall a b : R, RInt (RealSpec.KdeR.kde_mix k d) a b = RealSpec.KdeR.kde_mix K d b - RealSpec.KdeR.kde_mix K d a) /\
+  (is_lim K m_infty 0 -> is_lim K p_infty 1 ->
+   is_lim (RealSpec.KdeR.kde_mix K d) m_infty 0 /\ is_lim (RealSpec.KdeR.kde_mix K d) p_infty 1).
+Proof.
+  intros k K HK Hk Hc d Hd.
+  split; [intro x; apply Proofs.KdeR.kde_cdf_derive, HK|].
+  split; [intro x; apply Proofs.KdeR.kde_pdf_nonneg; assumption|].
+  split; [apply (Proofs.KdeR.kde_cdf_monotone k K); assumption|].
+  split; [intros a b; apply (Proofs.KdeR.kde_integral k K); assumption|].
+  intros L0 L1. apply (Proofs.KdeQR.kde_cdf_limits K d L0 L1 Hd).
+Qed.
+
+(* reflection at one boundary, for ANY pair F' = f with f continuous *)
+Lemma R_reflection : forall f F : R -> R, (forall x : R, is_derive F x (f x)) ->
+  (forall x : R, continuous f x) ->
+  (forall m x : R, is_derive (RealSpec.KdeR.refl_low_cdf F m) x (RealSpec.KdeR.refl_low_pdf f m x)) /\
+  (forall M x : R, is_derive (RealSpec.KdeR.refl_high_cdf F M) x (RealSpec.KdeR.refl_high_pdf f M x)) /\
+  (forall m : R, RealSpec.KdeR.refl_low_cdf F m m = 0) /\
+  (forall M : R, RealSpec.KdeR.refl_high_cdf F M M = 1) /\
+  (forall m b : R, RInt (RealSpec.KdeR.refl_low_pdf f m) m b = RealSpec.KdeR.refl_low_cdf F m b) /\
+  (forall M a : R, RInt (RealSpec.KdeR.refl_high_pdf f M) a M = 1 - RealSpec.KdeR.refl_high_cdf F M a).
+Proof.
+  intros f F HF Hc.
+  split; [intros m x; apply Proofs.KdeR.refl_low_derive, HF|].
+  split; [intros M x; apply Proofs.KdeR.refl_high_derive, HF|].
+  split; [intro m; apply Proofs.KdeR.refl_low_cdf_at_min|].
+  split; [intro M; apply Proofs.KdeR.refl_high_cdf_at_max|].
+  split; [intros m b; apply (Proofs.KdeR.refl_low_integral f F); assumption|].
+  intros M a. apply (Proofs.KdeR.refl_high_integral f F); assumption.
+Qed.
+
+(* the image sums, for ANY pair F' = f with f continuous and every order N *)
+Lemma R_images : forall f F : R -> R, (forall x : R, is_derive F x (f x)) ->
+  (forall x : R, continuous f x) -> forall (m M : R) (N : nat),
+  (forall x : R, is_derive (RealSpec.KdeR.img_cdf F m M N) x (RealSpec.KdeR.img_pdf f m M N x)) /\
+  (forall a b : R, RInt (RealSpec.KdeR.img_pdf f m M N) a b =
+                   RealSpec.KdeR.img_cdf F m M N b - RealSpec.KdeR.img_cdf F m M N a) /\
+  RealSpec.KdeR.img_cdf F m M N m = 0 /\
+  RealSpec.KdeR.img_cdf F m M N M =
+    F (M + INR N * RealSpec.KdeR.img_period m M) - F (M - (INR N + 1) * RealSpec.KdeR.img_period m M).
+Proof.
+  intros f F HF Hc m M N.
+  split; [intro x; apply Proofs.KdeR.img_derive, HF|].
+  split; [intros a b; apply (Proofs.KdeR.img_integral f F); assumption|].
+  split; [apply Proofs.KdeR.img_cdf_at_min | apply Proofs.KdeR.img_cdf_at_max].
+Qed.
+
+(* the Gaussian kernel NormalDist{0,h}: kernel pair; the estimate in every boundary setting *)
+Lemma R_gaussian : forall h : R, 0 < h ->
+  ((forall x : R, is_derive (RealSpec.Normal.Phi 0 h) x (RealSpec.Normal.phi 0 h x)) /\
+   (forall x : R, 0 < RealSpec.Normal.phi 0 h x) /\
+   (forall x : R, continuous (RealSpec.Normal.phi 0 h) x) /\
+   (forall x : R, 0 < RealSpec.Normal.Phi 0 h x < 1) /\
+   is_lim (RealSpec.Normal.Phi 0 h) m_infty 0 /\ is_lim (RealSpec.Normal.Phi 0 h) p_infty 1) /\
+  forall d : RealSpec.KdeR.sample, RealSpec.KdeR.sample_ok d ->
+    Proofs.KdeQR.proper_pair (Proofs.KdeQR.gauss_kde_pdf h d) (Proofs.KdeQR.gauss_kde_cdf h d) /\
+    (is_lim (Proofs.KdeQR.gauss_kde_cdf h d) m_infty 0 /\ is_lim (Proofs.KdeQR.gauss_kde_cdf h d) p_infty 1) /\
+    (forall m : R, is_lim (fun b : R => RInt (RealSpec.KdeR.refl_low_pdf (Proofs.KdeQR.gauss_kde_pdf h d) m) m b) p_infty 1) /\
+    (forall M : R, is_lim (fun a : R => RInt (RealSpec.KdeR.refl_high_pdf (Proofs.KdeQR.gauss_kde_pdf h d) M) a M) m_infty 1) /\
+    (forall (m M : R) (N : nat), m < M ->
+       0 < RInt (RealSpec.KdeR.img_pdf (Proofs.KdeQR.gauss_kde_pdf h d) m M N) m M < 1) /\
+    (forall m M : R, m < M ->
+       is_lim_seq (fun N : nat => RInt (RealSpec.KdeR.img_pdf (Proofs.KdeQR.gauss_kde_pdf h d) m M N) m M) 1).
+Proof.
+  intros h Hh. split; [apply Proofs.KdeQR.gauss_kernel_pair, Hh|].
+  intros d Hd. split; [apply Proofs.KdeQR.gauss_kde_proper; assumption|].
+  split; [apply Proofs.KdeQR.gauss_kde_cdf_limits; assumption|].
+  split; [intro m; apply Proofs.KdeQR.gauss_refl_low_mass_one; assumption|].
+  split; [intro M; apply Proofs.KdeQR.gauss_refl_high_mass_one; assumption|].
+  split; [intros m M N L; apply Proofs.KdeQR.gauss_img_mass_defect; assumption|].
+  intros m M L. apply Proofs.KdeQR.gauss_img_mass_limit; assumption.
+Qed.
+
+(* the 10th-power form of the rules is the stated formula; min of deviations = min of variances *)
+Lemma R_bandwidth_formula :
+  (forall (s : R) (s2 n : Q), (0 < n)%Q -> Q2R s2 = s * s ->
+     Q2R (bw10 s2 n) = (106 / 100 * s * Rpower (Q2R n) (- (1 / 5))) ^ 10) /\
+  (forall a b : R, 0 <= a -> 0 <= b -> Rmin a b * Rmin a b = Rmin (a * a) (b * b)).
+Proof. split; [exact Proofs.KdeQR.Q2R_bw10 | exact Proofs.KdeQR.Rmin_sq]. Qed.
+
+(* the rational definitions are the real ones at rational points *)
+Lemma Q2R_bridge :
+  (forall h x : Q, (0 < h)%Q -> Q2R (epan_pdf h x) = RealSpec.KdeR.epan_pdf (Q2R h) (Q2R x)) /\
+  (forall h x : Q, (0 < h)%Q -> Q2R (epan_cdf h x) = RealSpec.KdeR.epan_cdf (Q2R h) (Q2R x)) /\
+  (forall (g : Q -> Q) (gR : R -> R) (ps : list (Q * Q)) (x : Q),
+     (forall q : Q, Q2R (g q) = gR (Q2R q)) -> pairs_ok ps ->
+     Q2R (wavg g ps x) = RealSpec.KdeR.kde_mix gR (Proofs.KdeQR.sampleR ps) (Q2R x)) /\
+  (forall (f : Q -> Q) (fR : R -> R) (m M : Q) (N : nat) (x : Q),
+     (forall q : Q, Q2R (f q) = fR (Q2R q)) ->
+     Q2R (fold_pdf f m M N x) = RealSpec.KdeR.img_pdf fR (Q2R m) (Q2R M) N (Q2R x)) /\
+  (forall (F : Q -> Q) (FR : R -> R) (m M : Q) (N : nat) (x : Q),
+     (forall q : Q, Q2R (F q) = FR (Q2R q)) ->
+     Q2R (fold_cdf F m M N x) = RealSpec.KdeR.img_cdf FR (Q2R m) (Q2R M) N (Q2R x)).
+Proof.
+  split; [exact Proofs.KdeQR.Q2R_epan_pdf|]. split; [exact Proofs.KdeQR.Q2R_epan_cdf|].
+  split; [exact Proofs.KdeQR.Q2R_wavg|]. split; [exact Proofs.KdeQR.Q2R_fold_pdf | exact Proofs.KdeQR.Q2R_fold_cdf].
+Qed.
